@@ -201,7 +201,7 @@ func c17Schema() dyn.Schema {
 func coqTxn(s *val.Syms, ops []TOp) string {
 	var parts []string
 	for _, o := range ops {
-		parts = append(parts, "("+o.coq(s)+", None)")
+		parts = append(parts, o.coqNamed(s))
 	}
 	return "[" + strings.Join(parts, "; ") + "]"
 }
